@@ -7,6 +7,7 @@ get wrong; they never change what is admissible.
 from . import spec as S
 
 GRID = (0.25, 0.5, 0.75, 1.0, 1.25, 1.5, 2.0)
+YIELDS = (1, 2, 3, 1, 2, 3, 4, 5, 6, 7, 9, 12)
 HALF = 0.125
 
 FEATURES = ('windows', 'timeouts', 'nesting', 'forever', 'failures',
@@ -69,13 +70,15 @@ class _Gen:
         if self.feat['zero_jobs'] and allow_zero and rng.random() < 0.25:
             k = rng.choice((0, 0, 1, 2, 3))
             return [["yield", k]] if k else []
+        # (the yields decide in which iteration of the loop, within one
+        # instant, things happen: up to a dozen apart)
         if rng.random() < 0.3:
-            steps.append(["yield", rng.choice((1, 2, 3))])
+            steps.append(["yield", rng.choice(YIELDS)])
         steps.append(["sleep", rng.choice(self.palette)])
         if rng.random() < 0.15:
             steps.append(["sleep", rng.choice(self.palette)])
         if rng.random() < 0.3:
-            steps.append(["yield", rng.choice((1, 2, 3))])
+            steps.append(["yield", rng.choice(YIELDS)])
         return steps
 
     def job(self):
@@ -125,11 +128,16 @@ class _Gen:
             node["cleanup_outcome"] = rng.choice(("exc", "exc", "ret"))
         if feat['slow_handlers'] and rng.random() < 0.15:
             node["handler_absorbs"] = True
+        if feat['self_cancel'] and rng.random() < 0.2:
+            # its co_shutdown() ends with a CancelledError of its own (the
+            # idiom: helper.cancel(); await helper)
+            node["handler_self_cancel"] = True
         if feat['slow_handlers'] and rng.random() < 0.5:
             node["handler"] = rng.choice(
                 ([["sleep", 0.25]], [["sleep", 0.5]], [["sleep", 1.0]],
-                 [["yield", 2]], [["sleep", rng.choice(GRID)]],
-                 [["sleep", 0.125]]))
+                 [["yield", rng.choice(YIELDS)]],
+                 [["yield", rng.choice(YIELDS)]],
+                 [["sleep", rng.choice(GRID)]], [["sleep", 0.125]]))
         return node
 
     # ---- schedulers
@@ -338,6 +346,11 @@ def gen_knobs(rng, feat, prof=None):
         "sync_shutdown": rng.random() < 0.3,
         "noise": rng.choice((0, 0, 0, 0.25, 0.125)),
         "sched_seed": rng.randrange(1 << 30),
+        # the wall clock stepped forwards or backwards in the middle of the
+        # run (not the loop's clock, not time.monotonic())
+        "wall_jump": None if rng.random() < 0.8 else
+        [rng.choice(GRID) - rng.choice((0.0, HALF)),
+         rng.choice((-3600.0, -1.0, -0.5, 0.5, 1.0, 3600.0))],
     }
 
 
